@@ -207,7 +207,7 @@ class ExecS(Exec):
                 nb = CArr(arr, base.n, base.off, base.name)
                 self.store_carr(target.value, nb, st, node)
             elif isinstance(base, MapV):
-                self.assign(target.value, MapV(z3.Store(base.arr, zint(idx), zint(v))), st, node)
+                self.assign(target.value, MapV(z3.Store(base.arr, zint(idx), v.arr if isinstance(v, MapV) else zint(v))), st, node)
             elif isinstance(base, ObjV):
                 h = self.world.method_handler(base.cls, "__setitem__")
                 if h is None:
